@@ -1,7 +1,7 @@
 (* Run/EvalProps.v — per-property projections of the state-machine trace.
    Each property compares only the part of the trace it speaks about, so an
    observable but unrelated rewrite does not alarm properties it does not touch. *)
-Require Export Verif.Run.EvalSM Verif.Model.Monitors Verif.Model.Monitors18 Verif.Model.Monitors2b Verif.Model.Monitors11a Verif.Proofs.Monitor.
+Require Export Verif.Run.EvalSM Verif.Model.Monitors Verif.Model.Monitors18 Verif.Model.Monitors2b Verif.Model.Monitors11a Verif.Model.Monitors6r Verif.Proofs.Monitor.
 Open Scope N_scope.
 
 Definition is_metric (f : metric -> bool) (a : action) : bool := match a with AMetric m => f m | _ => false end.
@@ -52,7 +52,8 @@ Definition mon_c05 (c : smcase) (t : list action) : bool := match c with KSm ep 
 Definition run_c05 := run_sm proj_c05 mon_c05.
 Definition mon_c06 (c : smcase) (t : list action) : bool :=
   match c with KSm ep _ _ cup _ e _ _ =>
-    accepts step6 (init6 ep cup (e_store e)) t && accepts step6ids {| i_in := false; i_sess := None; i_reqs := [] |} t end.
+    accepts step6 (init6 ep cup (e_store e)) t && accepts step6ids {| i_in := false; i_sess := None; i_reqs := [] |} t
+    && accepts step6r (init6r cup) t end.
 Definition run_c06 := run_sm proj_c06 mon_c06.
 Definition mon_c07 (c : smcase) (t : list action) : bool := match c with KSm _ _ _ cup _ e _ _ => accepts step7 (init7 cup (e_store e)) t end.
 Definition run_c07 := run_sm proj_c07 mon_c07.
